@@ -96,6 +96,15 @@ pub struct LinkCfg {
     /// Socket-like (not ready => flush pending) or queue-like (flush always completes).
     pub coupled: bool,
     pub faults: Vec<FaultAt>,
+    /// After an injected readiness/flush/close failure every later operation fails too (true),
+    /// or the transport carries on as if nothing happened (false: a transient failure; a failed
+    /// flush discards what was buffered).
+    #[serde(default = "default_true")]
+    pub sticky: bool,
+}
+
+fn default_true() -> bool {
+    true
 }
 
 impl Default for LinkCfg {
@@ -104,6 +113,7 @@ impl Default for LinkCfg {
             cap: 0,
             coupled: true,
             faults: vec![],
+            sticky: true,
         }
     }
 }
@@ -229,6 +239,8 @@ pub struct LinkState<In, Out> {
     /// number of items ever handed to the peer side of the wire
     pub wired: u64,
     pub next_calls: u32,
+    /// sticky failure in force
+    broken: bool,
 }
 
 pub type Link<In, Out> = Rc<RefCell<LinkState<In, Out>>>;
@@ -268,6 +280,7 @@ pub fn sim_link<In, Out>(id: u8, side: &'static str, cfg: LinkCfg) -> (SimTransp
         mon: Monitor::default(),
         wired: 0,
         next_calls: 0,
+        broken: false,
     }));
     (SimTransport { st: st.clone() }, PeerEnd { st })
 }
@@ -301,7 +314,7 @@ impl<In, Out> LinkState<In, Out> {
         }
     }
     pub fn writable_now(&self) -> bool {
-        !self.blocked && !self.mon.failed
+        !self.blocked && !self.broken
     }
     pub fn staged_len(&self) -> usize {
         self.staged.len()
@@ -379,11 +392,12 @@ impl<In, Out: Describe> Sink<Out> for SimTransport<In, Out> {
         let mut st = self.st.borrow_mut();
         let link = st.id;
         let side = st.side;
-        let res = if st.mon.failed || st.fault(Op2::Ready) {
-            if !st.mon.failed {
+        let res = if st.broken || st.fault(Op2::Ready) {
+            if !st.broken {
                 if let Some(s) = cur() {
                     s.count("fault.err_ready");
                 }
+                st.broken = st.cfg.sticky;
             }
             Res::Err
         } else if st.cfg.coupled {
@@ -471,10 +485,15 @@ impl<In, Out: Describe> Sink<Out> for SimTransport<In, Out> {
         preempt("t:flush");
         let mut st = self.st.borrow_mut();
         let link = st.id;
-        let res = if st.mon.failed || st.fault(Op2::Flush) {
-            if !st.mon.failed {
+        let res = if st.broken || st.fault(Op2::Flush) {
+            if !st.broken {
                 if let Some(s) = cur() {
                     s.count("fault.err_flush");
+                }
+                st.broken = st.cfg.sticky;
+                if !st.cfg.sticky {
+                    // a transient flush failure loses what was buffered
+                    st.staged.clear();
                 }
             }
             Res::Err
@@ -506,11 +525,12 @@ impl<In, Out: Describe> Sink<Out> for SimTransport<In, Out> {
         preempt("t:close");
         let mut st = self.st.borrow_mut();
         let link = st.id;
-        let res = if st.mon.failed || st.fault(Op2::Close) {
-            if !st.mon.failed {
+        let res = if st.broken || st.fault(Op2::Close) {
+            if !st.broken {
                 if let Some(s) = cur() {
                     s.count("fault.err_close");
                 }
+                st.broken = st.cfg.sticky;
             }
             Res::Err
         } else if st.cfg.coupled && !st.staged.is_empty() && st.blocked {
